@@ -1337,6 +1337,13 @@ static void opKillTest(const HxLine& l)
   // own descriptors now: start-up set + the pipe ends held by p (+ the saved stdout while diverted)
   int mine = countFds() - fdBaseline - (diverted ? 1 : 0);
   int childExtra = ok ? countFdsOf(p.getProcessId()) - (fdBaseline - 1) - (diverted ? 1 : 0) : -1; // the saved stdout is inherited too
+  // the freshly exec'ed child may still be inside its dynamic loader (libc.so / ld.so.cache open for a moment, seen under
+  // heavy load): a descriptor LEAKED by open() stays for ever, a transient one is gone a few milliseconds later
+  for(int i = 0; ok && childExtra > 0 && i < 200; ++i)
+  {
+    usleep(5000);
+    childExtra = countFdsOf(p.getProcessId()) - (fdBaseline - 1) - (diverted ? 1 : 0);
+  }
   bool killed = ok && p.kill();
   if(diverted)
     restoreStdout(cap);
